@@ -2732,6 +2732,12 @@ def groupby_reduce(
         axis_ = tuple(array.ndim + np.arange(-by_.ndim, 0))
     else:
         axis_ = normalize_axis_tuple(axis, array.ndim)
+        if any(ax < array.ndim - by_.ndim for ax in axis_):
+            raise ValueError(
+                "Can only reduce along dimensions of `array` that `by` is aligned with: "
+                f"the last {by_.ndim} of {array.ndim}. Received axis={axis!r}. "
+                "Broadcast `by` against `array` to reduce along other dimensions."
+            )
     nax = len(axis_)
 
     has_dask = is_duck_dask_array(array) or is_duck_dask_array(by_)
